@@ -45,3 +45,15 @@ Definition classes_of_bytes (bs : bytes) : option (list ParserDepthModel.tok) :=
   | Done ts _ => Some (map tok_class ts)
   | OutOfFuel => None
   end.
+
+(** the number of runes DecodeRune cuts a byte string into (an invalid byte is a rune of size 1):
+    what consumeRune is executed on (Cplx/ScanSteps.v) *)
+Fixpoint rune_count (fuel : nat) (rest : bytes) : nat :=
+  match fuel with
+  | O => O
+  | S f => match rest with
+           | [] => O
+           | _ => S (rune_count f (skipn (snd (read_next_rune rest)) rest))
+           end
+  end.
+Definition runes (bs : bytes) : nat := rune_count (length bs) bs.
